@@ -60,15 +60,18 @@ claim("C03", "proof",
       "trusted: package tracer/expansion as front end; exactness of the sign algebra in IEEE RN arithmetic; sign symmetry of native atan2/sin/cos; not decided: zero components for conjugation/oddness, sign of exactly cancelling sums",
       "normal-form equality (exact sign algebra) over the expression IR obtained through the package's tracer", "DESIGN.md §3/C03")
 claim("C12", "other",
-      "Partial: exact-sum conservation of the functional (select-based) renormalize for list lengths 2..5 (thorough: 2..7), fast and safe modes, in every case split, by interpreting the traced expression DAG in an affine-equality domain (recognised 2Sum/Fast2Sum pairs are exact, other rounded operations are fresh atoms, `e == 0` adds a linear constraint, integer bookkeeping of nztopk evaluated per case); maximal-size tables against the finfo formula. Not decided: non-overlap/ordering, two-pass claim, product/square error bounds, eager variant.",
+      "Partial: exact-sum conservation of the functional (select-based) renormalize for list lengths 2..5 (thorough: 2..7), fast and safe modes, in every case split, by interpreting the traced expression DAG in an affine-equality domain (recognised 2Sum/Fast2Sum pairs are exact, other rounded operations are fresh atoms, `e == 0` adds a linear constraint, integer bookkeeping of nztopk evaluated per case); maximal-size tables against the finfo formula; term accounting of add/subtract/multiply/square: their bodies are interpreted on symbolic expansions with two_prod and vecsum summarised by their error-free contracts, and the list handed to renormalize must sum to the exact sum/product/square as a polynomial identity. Not decided: non-overlap/ordering, two-pass claim, the error bound after truncation to `size`, eager renormalize.",
       "trusted: package tracer as front end; 2Sum/Fast2Sum exactness absent overflow; fast mode under its documented magnitude-ordering precondition",
-      "abstract interpretation of the expression IR in an affine-equality (Karr-style) domain with case splitting", "DESIGN.md §3/C12")
+      "abstract interpretation of the expression IR in an affine-equality (Karr-style) domain with case splitting; abstract interpretation of the Python source over exact polynomials", "DESIGN.md §3/C12")
 claim("C14", "other",
       "Thin: structural clauses of the ULP metric decided on the source of utils.diff_ulp/ulp: the scalar branch is invariant under exchanging its arguments (canonical form modulo commutativity and the |a-b| idiom); complex distance is max over paired components; sequence branches pair positionally and forward both options; signs are taken before abs() with sign(0)=0 and integer views of absolute values; out-of-range marker 2**bits; ulp(x)=ldexp(1, frexp exponent + negep). That the value equals the number of representable steps, chain additivity and the flush remapping are numeric and not decided.",
       "only the named structural clauses are decided; same-type arguments assumed (x.dtype and y.dtype identified)",
       "AST canonicalisation and swap-invariance check; call-site argument pairing", "DESIGN.md §3/C14")
+claim("C02", "other",
+      "Partial (necessary conditions of the ULP clause, decided for every float of float32 and float64, not a sample): the expanded expression DAG of each real algorithm (asin, acos, asinh, acosh, absolute, square, hypot) is interpreted over floating-point intervals with an adaptive partition of the whole float line (plane for hypot); on every box inside the domain the result contains no NaN and lies within a relative bound (2**-8 quick, 2**-11 thorough; hypot 2**-3 / 2**-5) of the true function's range over the box, overflow accepted exactly where the true value overflows; outside the domain the result is NaN only; exact limits at +-0, +-inf and domain ends. The 4/5-ULP bounds and the 3-ULP rate are not decided.",
+      "trusted: numpy IEEE arithmetic for interval end points, numpy long-double reference functions, library functions assumed within 4 ulp; not decided: accuracy below the stated relative bound",
+      "abstract interpretation of the expression IR over floating-point intervals with adaptive input partitioning (boxes degenerate to points give exact witnesses)", "DESIGN.md §3/C02")
 for p, why in dict(
     C01="bounds ULP error of libm-based formulas over all complex inputs: a numeric quantity no static argument in reach can bound",
-    C02="same on the real line; float32 exhaustion is execution, not static analysis",
 ).items():
     na(p, why)
